@@ -328,7 +328,12 @@ def shard_main(prop, tier, seed, k, n, outfile, replay=None, budget=None):
             except Exception as e:  # noqa
                 tb = sys.exc_info()[2]
                 info = "".join(traceback.format_exception(type(e), e, tb))[-3000:]
-                if tangelo_in_traceback(tb):
+                last = traceback.extract_tb(tb)[-1].filename
+                if isinstance(e, AttributeError) and "module 'numpy.linalg' has no attribute 'linalg'" in str(e) and "/pyscf/" in last:
+                    # the installed PySCF's DIIS handles a singular extrapolation matrix with numpy.linalg.linalg.LinAlgError, a name that
+                    # NumPy 2 removed: an incompatibility between two third-party packages on a pathological geometry, not an observation
+                    ctx.note("pyscf_numpy2_diis_incompatibility_skipped")
+                elif tangelo_in_traceback(tb):
                     mech = None
                     if hasattr(mod, "classify_exception"):
                         try:
